@@ -330,6 +330,27 @@ for ci, chunk in enumerate(_chunks(SEQS, 12)):
         c.modifies("self.expr", "self.tokens.left", "self.tokens.right", "self.tokens.left[]", "self.tokens.right[]")   # nothing else is carried from one solve to the next
 
 
+# ---- values outside the real numbers: the proofs above read floats as reals, so infinities and not-a-number operands (which well-formed
+#      expressions over plain numbers do produce: 10**308*10 overflows, inf - inf is not a number) are covered by ground evaluation of
+#      concrete texts; expected values are those of IEEE-754 / Python applied in the documented order ---------------------------------------
+INF = "10**308*10"
+NAN = "(10**308*10 - 10**308*10)"
+SPECIAL = [(f"{NAN} <= 1", False), (f"{NAN} >= 1", False), (f"1 <= {NAN}", False), (f"1 >= {NAN}", False), (f"{NAN} < 1", False), (f"{NAN} > 1", False),
+           (f"{NAN} == {NAN}", False), (f"{NAN} != 1", True), (f"{NAN}<=1", False), (f"!({NAN} <= 1)", True), (f"!({NAN} >= 1)", True),
+           (f"{NAN} <= 1 || 1 > 2", False), (f"2 < 3 && {NAN} >= 0", False), (f"{INF} > 1", True), (f"{INF} >= {INF}", True), (f"{INF} <= {INF}", True),
+           (f"{INF} <= 1", False), (f"1 >= {INF}", False), (f"0 - {INF} < 1", True), (f"0 - {INF} <= 0 - {INF}", True), (f"{INF} == {INF}", True),
+           (f"{INF} < {INF}", False), (f"{INF} > {INF}", False), (f"1 / ({INF}) == 0", True), (f"({NAN} >= 1) + 1", 1.0)]
+
+
+@contract(f"{ES}.solve", ["C01"], name="ExpressionSolver.solve[infinite-and-not-a-number-operands]")
+def _(c):
+    c.bound = f"{len(SPECIAL)} concrete texts whose intermediate values overflow to infinity or are not a number (ground evaluation)"
+    for text, want in SPECIAL:
+        c.scenario(text, (lambda text, want: lambda b: dict(args=[b.new(ES, b.cls(ATOM)), text], env=dict(want=want)))(text, want))
+    c.ensures("typename(result) == 'AtomBase' and result.value == want", "value-of-the-documented-evaluation-order")
+    c.no_raise()
+
+
 @contract(f"{ES}.solve", ["C01", "C02"], name="ExpressionSolver.solve[ill-formed]")
 def _(c):
     c.bound = "the listed single-defect strings (unbalanced parentheses, wrong argument count, missing operand)"
